@@ -18,6 +18,8 @@ type C04Case struct {
 	FirstValue bool `json:"first_value_readers,omitempty"`
 	// Neighbours: the long-lived WAF serves other requests (one of them triggers run-time exclusions) in between
 	Neighbours bool `json:"neighbours,omitempty"`
+	// Reps: repetitions on fresh WAFs and on the long-lived one (default 6 each); witnesses of rare divergences use more
+	Reps int `json:"reps,omitempty"`
 }
 
 func genC04(t *rapid.T) *C04Case {
@@ -84,6 +86,17 @@ func genC04(t *rapid.T) *C04Case {
 			Acts: []string{fmt.Sprintf("ctl:ruleRemoveTargetById=%d;%s:%s", victim.ID, coll, key), "ctl:ruleRemoveById=" + fmt.Sprint(rs[len(rs)-1].ID)}}}}, c.RS.Items...)
 		c.Neighbours = true
 	}
+	if rapid.IntRange(0, 7).Draw(t, "orderacrossnames") == 0 {
+		// a chain whose link reads TX.1 captured from a target with several values under DIFFERENT names: which value
+		// is captured last follows the iteration order of the collection
+		if known("C04-order-across-names") {
+			statExcluded("C04-order-across-names") // known finding: excluded by construction while its witness still fails
+		} else {
+			c.RS.Items = append(c.RS.Items, Item{Rule: &Rule{ID: 970, Phase: 2, Disr: "pass", Capture: true, Targets: []Target{{Var: "ARGS_GET"}}, Op: "rx", Arg: "^(.)",
+				Chain: []*Rule{{Targets: []Target{{Var: "TX", Key: "1"}}, Op: "streq", Arg: "a"}}}})
+			c.Req.Query = append(c.Req.Query, KV{"ox", "ab"}, KV{"oy", "cd"}, KV{"oz", "ef"})
+		}
+	}
 	if rapid.IntRange(0, 5).Draw(t, "arglimit") == 0 {
 		c.ArgLimit = rapid.IntRange(1, 3).Draw(t, "limit")
 		c.RS.Pre = append(c.RS.Pre, fmt.Sprintf("SecArgumentsLimit %d", c.ArgLimit))
@@ -114,7 +127,10 @@ func canonOutcome(o *Outcome) string {
 func checkC04(c *C04Case) Result {
 	res := Result{}
 	conf := c.RS.Render()
-	const fresh, reused = 6, 6
+	fresh, reused := 6, 6
+	if c.Reps > 0 {
+		fresh, reused = c.Reps, c.Reps
+	}
 	var first string
 	var firstOut *Outcome
 	compare := func(o *Outcome, where string) *Failure {
@@ -179,7 +195,7 @@ func checkC04(c *C04Case) Result {
 			return res
 		}
 	}
-	statExtra("transactions", fresh+reused)
+	statExtra("transactions", int64(fresh+reused))
 	// labels
 	res.Labels = append(res.Labels, "kind:"+c.Kind)
 	if c.FirstValue {
